@@ -153,6 +153,26 @@ def round_agree(rep, prog, rule="ROUND-AGREE"):
                 rep.violation(rule, "printer hour carry", "the printed hour is %s: when 59 minutes and 30 or more seconds round up, the minute "
                               "wraps to 00 but no carry reaches the hour (-06:59:56 prints as -06:00 instead of -07:00, an hour away "
                               "from the offset, so the text no longer parses back to the instant)" % show(hours, maxd=4)[:160], f.loc())
+    # (1c) a timestamp printed with an offset has no annotation to recover the offset from: the civil time it prints must be
+    # computed with the very offset value it prints, and that value is the minute-rounded one
+    g = prog.fns.get("jiff::fmt::temporal::printer::DateTimePrinter::print_timestamp")
+    if g is None:
+        rep.anchor_missing("DateTimePrinter::print_timestamp")
+    else:
+        Tg = Terms(g)
+        civ = [Tg.at_call(bi, t, 0) for bi, t in mir.iter_calls(g) if t.get("path", "").endswith("Offset::to_datetime")]
+        prt = [Tg.at_call(bi, t, 1) for bi, t in mir.iter_calls(g) if t.get("path", "").endswith("::print_offset_rounded")]
+        strip = lambda t_: t_[1] if isinstance(t_, tuple) and t_ and t_[0] in ("ref", "deref") else t_
+        same = bool(civ) and bool(prt) and all(strip(a) == strip(b) for a in civ for b in prt)
+        rounded = bool(civ) and all(any(is_call(x, "Offset::round") for x in walk(a)) for a in civ)
+        if same and rounded:
+            rep.ok(rule, "timestamp with offset", how="civil time and printed offset use the same minute-rounded offset", loc=g.loc())
+        else:
+            rep.violation(rule, "timestamp with offset", "print_timestamp computes the civil time with %s and prints the offset %s "
+                          "(same value: %s, minute-rounded before use: %s): with a sub-minute offset the printed local time and the "
+                          "printed (rounded) offset disagree by up to 30 s, so the text decodes to a different instant (offset +30 s: "
+                          "1970-01-01T00:00:30+00:01), and offsets in (-30 s, 0) print as -00:00"
+                          % (show(civ[0], maxd=3)[:60] if civ else "?", show(prt[0], maxd=3)[:60] if prt else "?", same, rounded), g.loc())
     # (2) parser predicate
     cl = [g for g in prog.fns.values() if g.crate == "jiff" and g.is_closure and "temporal::parser::ParsedDateTime" in g.path
           and "to_ambiguous_zoned" in g.path]
